@@ -1255,6 +1255,15 @@ def e3_oracle_c07(rec):
                             f"{p} ({st}) is a detached output that nothing holds; node and unmodified file are still there {where}"))
         elif f"file:{p}" in unneeded_out:
             step = unneeded_out[f"file:{p}"]
+            pst, _ = _gstate(rec["prev_graph"], p)
+            if st == "PLANNED" and pst == "VOLATILE":
+                # the path was a VOLATILE output when the file was written and was declared again as a regular output
+                # since: File.initialize_row(PLANNED) over a VOLATILE row gives PLANNED, which nothing queues
+                out.append(("oracle:e3:unneeded-optional-output-kept:was-volatile-now-planned",
+                            f"{p} was written as a VOLATILE output of {step}; the plan now declares it as a regular output "
+                            f"(node PLANNED), the optional step is not needed and does not run, and the old file is still on "
+                            f"disk after the successful unrestricted build: nothing remembers it {where}"))
+                continue
             out.append(("oracle:e3:unneeded-optional-output-kept",
                         f"{p} ({st}) is an unmodified output of the optional {step}, which no needed step consumes "
                         f"(directly or through other optional steps), and it is still on disk {where}"))
@@ -1458,6 +1467,25 @@ def undeclared_witness(depth, ls, lc, k):
     witness.info = {"family": "static-undeclared", "depth": depth, "declared_level": ls, "consumer_level": lc,
                     "second_build": second, "third_build": third, "file": where}
     return witness
+
+
+def e3_revol_history(optional_from_start=False):
+    """Directed (finding volatile-redeclared-regular): build 1: step mk writes the VOLATILE output v.log.  Build 2: the plan
+    declares the same path as a REGULAR output of mk and makes mk optional; nothing needs it, so it does not run.
+    The build is successful and unrestricted; the old v.log must be gone."""
+    from . import e3
+
+    def plan(second):
+        mk = {"op": "step", "label": "mk", "inp": ["src.txt"]}
+        if second:
+            mk["out"] = ["v.log"]
+            mk["need"] = "OPTIONAL"
+        else:
+            mk["vol"] = ["v.log"]
+        return [{"op": "static", "paths": ["src.txt"]}, mk,
+                {"op": "step", "label": "other", "inp": ["src.txt"], "out": ["other.txt"]}]
+    project = e3.Project(sources={"src.txt": "source"}, program={"scripts": {"plan.py": plan(False)}, "commands": {}}, env={})
+    return project, [{"edits": [{"op": "script", "path": "plan.py", "actions": plan(True)}]}]
 
 
 def e3_rename_history(rng, volatile=None, third=None, tamper=None):
